@@ -2,6 +2,7 @@ package c13
 
 import (
 	"fmt"
+	"mime"
 	"sort"
 	"strings"
 
@@ -127,6 +128,7 @@ func genCall(t *rapid.T, c *Case, maxBody int) Call {
 	}
 	call.Method = rapid.SampledFrom([]string{"GET", "GET", "POST", "PUT", "DELETE"}).Draw(t, "method")
 	call.OpClient = rapid.IntRange(0, 2).Draw(t, "opclient") == 0
+	call.OpClientBare = call.OpClient && rapid.IntRange(0, 2).Draw(t, "opclient-without-transport") == 0
 	call.OpCtx = rapid.SampledFrom([]string{"", "", "", "live", "live", "cancelled", "background", "todo", "expired", "soon"}).Draw(t, "opctx")
 	if call.BodyLen >= 0 {
 		call.BodyHead = rapid.SampledFrom([]string{"", "", "", "", "bom", "bom16", "gzip", "zip"}).Draw(t, "bodyhead")
@@ -154,6 +156,15 @@ func genRuntime(t *rapid.T) Case {
 	}
 	if rapid.IntRange(0, 2).Draw(t, "defreg") > 0 {
 		c.DefaultMT = rapid.SampledFrom(registrable).Draw(t, "defmt")
+		// the default media type is configuration text like any Content-Type: it may carry parameters or capitals
+		switch rapid.IntRange(0, 5).Draw(t, "defmt-spelling") {
+		case 0:
+			c.DefaultMT += "; charset=utf-8"
+		case 1:
+			c.DefaultMT = strings.ToUpper(c.DefaultMT[:1]) + c.DefaultMT[1:]
+		case 2:
+			c.DefaultMT = strings.ToUpper(c.DefaultMT) + ";q=1"
+		}
 	} else {
 		c.DefaultMT = rapid.SampledFrom(foreign).Draw(t, "defmt")
 	}
@@ -210,8 +221,11 @@ func Classify(c Case) (bool, []string) {
 	if len(c.Registry) == 0 {
 		lab["registry empty"] = true
 	}
-	if reg[c.DefaultMT] {
+	if dmt, _, derr := mime.ParseMediaType(c.DefaultMT); derr == nil && reg[dmt] {
 		lab["default media type registered"] = true
+		if dmt != c.DefaultMT {
+			lab["default media type spelled with parameters or capitals"] = true
+		}
 	} else {
 		lab["default media type unregistered"] = true
 	}
@@ -276,6 +290,9 @@ func Classify(c Case) (bool, []string) {
 		}
 		if call.OpClient {
 			lab["operation-level client"] = true
+			if call.OpClientBare {
+				lab["operation-level client without a Transport"] = true
+			}
 			nt = true
 		}
 		switch call.OpCtx {
